@@ -145,6 +145,7 @@ def _worker(args):
         'digests': {}, 'states': set(), 'vclasses': Counter(),
     }
     idx = start
+    executed = []
     while idx < cap and time.time() < deadline:
         try:
             case = make_case(check, verif_seed, idx, tier)
@@ -177,7 +178,8 @@ def _worker(args):
             seen = set(x[1] for x in res['violations'])
             c0 = out.violations[0].cls()
             if c0 not in seen and len(res['violations']) < 6:
-                res['violations'].append((case, c0, out.violations[0].to_json()))
+                res['violations'].append((case, c0, out.violations[0].to_json(), list(executed[-4000:])))
+        executed.append(idx)
         idx += step
     faulthandler.cancel_dump_traceback_later()
     return res
@@ -378,7 +380,7 @@ def load_known():
         return {'findings': [], 'fixed': []}
 
 
-def write_replay(check, original, minimal, vjson, digest):
+def write_replay(check, original, minimal, vjson, digest, sequence=None):
     d = os.path.join(VERIF, 'replays', check.id)
     os.makedirs(d, exist_ok=True)
     body = {
@@ -392,6 +394,8 @@ def write_replay(check, original, minimal, vjson, digest):
         'case': minimal,
         'original_case': original,
     }
+    if sequence is not None:
+        body['sequence'] = sequence       # cases to execute, in this order, in the same process before `case`
     h = hashlib.sha256(json.dumps(minimal, sort_keys=True).encode()).hexdigest()[:10]
     path = os.path.join(d, '%s-%s.json' % (original.get('seed'), h))
     with open(path, 'w') as f:
@@ -403,6 +407,8 @@ def replay(check, path):
     with open(path) as f:
         body = json.load(f)
     case = body['case']
+    for c in body.get('sequence') or ():
+        safe_execute(check, c)
     out, err = safe_execute(check, case)
     if err is not None:
         print('HARNESS-ERROR while replaying %s\n%s' % (path, err))
@@ -423,6 +429,58 @@ def replay(check, path):
         return 1
     print('replayed %s: no violation on this tree (recorded: %s at %s)' % (path, want[0], want[1]))
     return 0
+
+
+def _sequence_child(check, cases, cls, conn):
+    ok = False
+    try:
+        for c in cases[:-1]:
+            safe_execute(check, c)
+        out, err = safe_execute(check, cases[-1])
+        ok = out is not None and any(v.cls() == cls for v in out.violations)
+    finally:
+        conn.send(ok)
+        conn.close()
+
+
+def fails_in_sequence(check, cases, cls, timeout=300):
+    """Executes the cases one after the other in ONE fresh child process (state that survives across pipelines
+    built in the same process - module-level caches and the like - is the only thing that connects them) and tells
+    whether the last one shows the violation class."""
+    ctx = multiprocessing.get_context('fork')
+    a, b = ctx.Pipe(duplex=False)
+    p = ctx.Process(target=_sequence_child, args=(check, cases, cls, b))
+    p.start()
+    b.close()
+    ok = False
+    if a.poll(timeout):
+        try:
+            ok = bool(a.recv())
+        except EOFError:
+            ok = False
+    p.join(5)
+    if p.is_alive():
+        p.kill()
+    return ok
+
+
+def minimise_history(check, history_cases, final_case, cls, max_s=90.0):
+    """ddmin over the cases executed before the failing one."""
+    deadline = time.time() + max_s
+    hist = list(history_cases)
+    chunk = max(1, len(hist) // 2)
+    while chunk >= 1 and hist and time.time() < deadline:
+        i = 0
+        while i < len(hist) and time.time() < deadline:
+            cand = hist[:i] + hist[i + chunk:]
+            if fails_in_sequence(check, cand + [final_case], cls):
+                hist = cand
+            else:
+                i += chunk
+        if chunk == 1:
+            break
+        chunk //= 2
+    return hist
 
 
 # ---------------------------------------------------------------------------
@@ -470,13 +528,28 @@ def run_batch(check, tier, verif_seed, budget=None, cap=None, workers=None, want
 
     # classify violations: one representative per class, smallest run index first
     reps = {}
-    for case, cls, vjson in sorted(agg['violations'], key=lambda x: x[0]['idx']):
-        reps.setdefault(cls, (case, vjson))
+    for case, cls, vjson, hist in sorted(agg['violations'], key=lambda x: x[0]['idx']):
+        reps.setdefault(cls, (case, vjson, hist))
     known = load_known()
     exit_code = 0
     reported = []
     known_hit = {}
-    for cls, (case, vjson) in list(reps.items())[:8]:
+    for cls, (case, vjson, hist) in list(reps.items())[:8]:
+        out0, err0 = safe_execute(check, case)
+        if out0 is None or not any(v.cls() == cls for v in out0.violations):
+            # the case alone, in a fresh process, does not fail: does it fail after the cases its worker ran before it?
+            tier_ = tier
+            history_cases = [make_case(check, verif_seed, i, tier_) for i in hist]
+            if fails_in_sequence(check, history_cases + [case], cls):
+                history_cases = minimise_history(check, history_cases, case, cls)
+                path = write_replay(check, case, case, vjson, '', sequence=history_cases)
+                sig = '%s|%s|needs-earlier-pipelines-in-the-same-process' % (check.id, check.signature(case, Violation(vjson['kind'], vjson['op'], vjson.get('detail'))))
+                reported.append((sig, path, dict(vjson, needs_history=len(history_cases)), 0))
+                exit_code = 1
+                continue
+            print('HARNESS-ERROR property=%s: run %s reported %s in its worker but neither the case alone nor the worker\'s history '
+                  'reproduces it - the harness is not deterministic here; nothing is claimed' % (check.id, case.get('idx'), cls))
+            return 2, agg
         sh = Shrinker(check, case, cls)
         minimal = sh.run()
         out, err = safe_execute(check, minimal)
